@@ -197,6 +197,7 @@ def run_batch(ctx, lin, impl, cases, tag, model=None):
         conc_check.write_cases(cf, cases)
         rc2, raw = vcheck.sh([impl, cf], timeout=900)
         ilog = conc_check.parse_logs(raw); mlog = {}
+    ctx.log("batch %s: %d cases%s" % (tag, len(cases), " (step-compared)" if model is not None else ""))
     st = {"n": len(cases), "diverged": 0, "first_div": None, "monitor_hits": 0, "steps": 0, "shapes": set(), "nontrivial": set(),
           "verdicts": {}, "overrun": 0, "elim_hits": 0, "ops": {"push": 0, "pop_some": 0, "pop_none": 0}}
     hists = []; have = []
